@@ -86,6 +86,12 @@ pub fn make_case(prop: &str, run_seed: u64, index: u64, tier: &str) -> Case {
         }
         return crate::seq::gen_seq(&mut rng, 40);
     }
+    // one run in seven of the checks that speak about futures / progress / mixed flavours is a
+    // "balanced executors" case: several futures of both sides driven by one executor per task
+    if matches!(prop, "C06" | "C09" | "C16") && index % 7 == 3 {
+        let p = gen::profile_for(prop);
+        return gen::gen_exec_case(&mut rng, &p);
+    }
     let mut p = gen::profile_for(prop);
     if tier == "thorough" {
         // the thorough tier also explores larger programs: more operations per task, up to three tasks per side
